@@ -561,6 +561,46 @@ def digest_form(W, ev, t):
     return None
 
 
+def ret_as_predicate(W, fnpath):
+    """Return term of a bool function, with `match x { Ok(_) => true, Err(_) => false }` / `matches!(x, Ok(..))` normalised to
+    is_ok(x) (and the Option analogue to is_some(x))."""
+    import flow
+    ev = W.ev(fnpath)
+    fn = ev.fn
+    r = ev.ret()
+    if not (isinstance(r, tuple) and r and r[0] == "phi" and all(isinstance(a, tuple) and a[0] == "int" and a[1] in (0, 1) for a in r[1])):
+        return r
+    IN = flow.must_facts(fn, ev)
+    subj = {}
+    for bl in fn.blocks:
+        if bl.idx not in fn.reachable():
+            continue
+        for i, st in enumerate(bl.stmts):
+            if st["k"] == "assign" and st["dst"]["l"] == 0 and not st["dst"].get("p") and st["rv"]["k"] == "use" and "c" in st["rv"]["op"]:
+                val = ev.rvalue(st["rv"], (bl.idx, i))
+                if not (isinstance(val, tuple) and val[0] == "int" and val[1] in (0, 1)):
+                    return r
+                found = None
+                for rel in flow.rel_facts_at(IN, bl.idx):
+                    if rel[0] in ("Eq", "Ne") and isinstance(rel[1], tuple) and rel[1][0] == "discr" and isinstance(rel[2], tuple) and rel[2][0] == "int" and rel[2][1] in (0, 1):
+                        x = values.strip_payload(rel[1][1])
+                        variant = rel[2][1] if rel[0] == "Eq" else 1 - rel[2][1]
+                        if is_call(x):
+                            found = (x, variant)
+                if found is None:
+                    return r
+                subj.setdefault(found[0], set()).add((val[1], found[1]))
+    if len(subj) != 1:
+        return r
+    x, pairs = next(iter(subj.items()))
+    ty = ev.tty.get(x, "") or ""
+    is_opt = "option::Option" in ty.split("<")[0]
+    good = 1 if is_opt else 0
+    if pairs == {(1, good), (0, 1 - good)}:
+        return ("call", "core::option::Option::is_some" if is_opt else "core::result::Result::is_ok", (x,), None)
+    return r
+
+
 def value_holders(fn, call_bb):
     """Locals that (may) hold the value returned by the call in block call_bb, or a part of it: the destination, the results of
     unwrap/expect/`?` applied to it, and locals it is moved into (also out of an enum payload)."""
